@@ -8,7 +8,6 @@ import (
 	"strings"
 	"unicode/utf8"
 
-	"github.com/cockroachdb/apd/v2"
 	"github.com/kstenerud/go-concise-encoding/ce"
 	"github.com/kstenerud/go-concise-encoding/ce/events"
 	"github.com/kstenerud/go-concise-encoding/configuration"
@@ -114,42 +113,12 @@ func c23RandomFormats(r *rand.Rand) c23Formats {
 	return f
 }
 
-// text of the scalars the model takes from the libraries, as a Coq association list
-func c23TextTab(es []Ev) string {
-	items := []string{}
-	seen := map[string]bool{}
-	add := func(e Ev, t []byte) {
-		k := cEv(e)
-		if !seen[k] {
-			seen[k] = true
-			items = append(items, cPair(k, cBytes(t)))
-		}
-	}
-	for _, e := range es {
-		switch e.K {
-		case "bf":
-			if e.BF != nil && !e.BF.IsInf() && e.BF.Sign() != 0 {
-				add(e, e.BF.Append(nil, 'x', -1))
-			}
-		case "df":
-			if !e.DF.IsNan() && !e.DF.IsInfinity() {
-				add(e, []byte(e.DF.Text('g')))
-			}
-		case "bdf":
-			if e.BDF != nil && e.BDF.Form == apd.Finite {
-				add(e, e.BDF.Append(nil, 'g'))
-			}
-		}
-	}
-	return cList(items)
-}
-
 func c23CoqCfg(f c23Formats, es []Ev) string {
 	fm := make([]string, len(f))
 	for i, x := range f {
 		fm[i] = cN(uint64(x))
 	}
-	return fmt.Sprintf("{| cf_fmts := %s; cf_text := %s |}", cList(fm), c23TextTab(es))
+	return fmt.Sprintf("{| cf_fmts := %s |}", cList(fm))
 }
 
 // ---------------------------------------------------------------------------
@@ -199,6 +168,78 @@ type c23Group struct {
 	bits  []bool // bit arrays: all elements
 	// how the group was delivered in the parsed stream
 	emptyData bool // contained an empty data event
+	form      c23Form
+}
+
+// c23Form: one delivery of a group, either one whole-array event or a list of chunks.
+type c23Chunk struct {
+	n    uint64
+	more bool
+	ds   [][]byte
+}
+type c23Form struct {
+	whole  *Ev
+	chunks []c23Chunk
+}
+
+func (f c23Form) hasEmptyData() bool {
+	for _, ch := range f.chunks {
+		for _, d := range ch.ds {
+			if len(d) == 0 {
+				return true
+			}
+		}
+	}
+	return false
+}
+
+func (g *c23Group) beginEvent() Ev {
+	switch g.hdr {
+	case "media":
+		return Ev{K: "mb", S: g.mt}
+	case "custom":
+		return Ev{K: "cbeg", A: g.t, N: g.ct}
+	}
+	return Ev{K: "ab", A: g.t}
+}
+
+func (g *c23Group) events(f c23Form) []Ev {
+	if f.whole != nil {
+		return []Ev{*f.whole}
+	}
+	out := []Ev{g.beginEvent()}
+	for _, ch := range f.chunks {
+		out = append(out, Ev{K: "ac", N: ch.n, B: ch.more})
+		for _, d := range ch.ds {
+			out = append(out, Ev{K: "ad", Data: cp(d)})
+		}
+	}
+	return out
+}
+
+func (g *c23Group) coqHead() string {
+	switch g.hdr {
+	case "media":
+		return cApp("HMedia", cBytes([]byte(g.mt)))
+	case "custom":
+		return cApp("HCustom", cN(uint64(g.t)), cN(g.ct))
+	}
+	return cApp("HArr", cN(uint64(g.t)))
+}
+
+func (f c23Form) coq() string {
+	if f.whole != nil {
+		return cApp("DWhole", cEv(*f.whole))
+	}
+	cs := []string{}
+	for _, ch := range f.chunks {
+		ds := []string{}
+		for _, d := range ch.ds {
+			ds = append(ds, cBytes(d))
+		}
+		cs = append(cs, cTuple(cN(ch.n), cBool(ch.more), cList(ds)))
+	}
+	return cApp("DChunked", cList(cs))
 }
 
 type c23Item struct {
@@ -245,20 +286,25 @@ func c23Parse(es []Ev) []c23Item {
 		switch e.K {
 		case "a":
 			k, w := c23KindOf(e.A)
-			g = &c23Group{kind: k, hdr: "a", t: e.A, width: w}
+			ev := e
+			g = &c23Group{kind: k, hdr: "a", t: e.A, width: w, form: c23Form{whole: &ev}}
 			if k == "bit" {
 				g.bits = c23Bits(e.Data, e.N)
 			} else {
 				g.data = cp(e.Data)
 			}
 		case "sa":
-			g = &c23Group{kind: "str", hdr: "a", t: e.A, width: 1, data: cp(e.Data)}
+			ev := e
+			g = &c23Group{kind: "str", hdr: "a", t: e.A, width: 1, data: cp(e.Data), form: c23Form{whole: &ev}}
 		case "media":
-			g = &c23Group{kind: "hex", hdr: "media", t: events.ArrayTypeMedia, mt: e.S, width: 1, data: cp(e.Data)}
+			ev := e
+			g = &c23Group{kind: "hex", hdr: "media", t: events.ArrayTypeMedia, mt: e.S, width: 1, data: cp(e.Data), form: c23Form{whole: &ev}}
 		case "cb":
-			g = &c23Group{kind: "hex", hdr: "custom", t: events.ArrayTypeCustomBinary, ct: e.N, width: 1, data: cp(e.Data)}
+			ev := e
+			g = &c23Group{kind: "hex", hdr: "custom", t: events.ArrayTypeCustomBinary, ct: e.N, width: 1, data: cp(e.Data), form: c23Form{whole: &ev}}
 		case "ct":
-			g = &c23Group{kind: "str", hdr: "custom", t: events.ArrayTypeCustomText, ct: e.N, width: 1, data: cp(e.Data)}
+			ev := e
+			g = &c23Group{kind: "str", hdr: "custom", t: events.ArrayTypeCustomText, ct: e.N, width: 1, data: cp(e.Data), form: c23Form{whole: &ev}}
 		case "ab", "mb", "cbeg":
 			switch e.K {
 			case "ab":
@@ -285,11 +331,15 @@ func c23Parse(es []Ev) []c23Item {
 				if es[j].K == "ac" {
 					flush()
 					chunkN = es[j].N
+					g.form.chunks = append(g.form.chunks, c23Chunk{n: es[j].N, more: es[j].B})
 				} else {
 					if len(es[j].Data) == 0 {
 						g.emptyData = true
 					}
 					chunk = append(chunk, es[j].Data...)
+					if k := len(g.form.chunks); k > 0 {
+						g.form.chunks[k-1].ds = append(g.form.chunks[k-1].ds, cp(es[j].Data))
+					}
 				}
 			}
 			flush()
@@ -553,7 +603,11 @@ func c23ReencodeMinimise(f c23Formats, class string, es []Ev, text []byte) (key 
 			continue
 		default:
 			doc = c23Doc(*it.ev)
-			kind = it.ev.K
+			kind = map[string]string{"bf": "big-float", "bdf": "big-decimal", "df": "decimal-float", "fl": "float", "tm": "time", "bi": "big-int",
+				"pi": "int", "ni": "int", "i": "int", "uid": "uid", "nan": "nan", "null": "null", "b": "bool", "t": "bool", "f": "bool"}[it.ev.K]
+			if kind == "" {
+				kind = it.ev.K
+			}
 			if it.ev.K == "tm" && strings.Count(it.ev.T.String(), "/") >= 2 && strings.Contains(it.ev.T.String()[strings.Index(it.ev.T.String(), "/"):], ".") {
 				kind = "time-latlong"
 			}
@@ -600,6 +654,63 @@ func (r *c23Run) addCase(f c23Formats, es []Ev, valid bool, what string) {
 	r.c.Dist("case/" + what)
 }
 
+// c23Segs describes two deliveries of the same stream segment by segment (Coq: list seg). ok=false when
+// the streams do not line up or a media / custom-binary group contains an empty data event (the
+// excluded defect class), in which case the streams are recorded as two plain cases instead.
+func c23Segs(a, b []Ev) (term string, ok bool) {
+	ia, ib := c23Parse(a), c23Parse(b)
+	if len(ia) != len(ib) {
+		return "", false
+	}
+	segs := []string{}
+	for i := range ia {
+		x, y := ia[i], ib[i]
+		if (x.ev == nil) != (y.ev == nil) {
+			return "", false
+		}
+		if x.ev != nil {
+			if cEv(*x.ev) != cEv(*y.ev) {
+				return "", false
+			}
+			segs = append(segs, cApp("SPlain", cEv(*x.ev)))
+			continue
+		}
+		if x.grp.coqHead() != y.grp.coqHead() {
+			return "", false
+		}
+		if x.grp.kind == "hex" && (x.grp.form.hasEmptyData() || y.grp.form.hasEmptyData()) {
+			return "", false
+		}
+		segs = append(segs, cApp("SArr", x.grp.coqHead(), x.grp.form.coq(), y.grp.form.coq()))
+	}
+	return cList(segs), true
+}
+
+// addEquivCase records a stream and a re-delivery of it as one case: both implementation texts, and
+// (in Coq) the check that the pair satisfies the hypothesis of the chunk-invariance theorem.
+func (r *c23Run) addEquivCase(f c23Formats, a, b []Ev, valid bool, what string) bool {
+	if r.cf.n >= r.maxCases {
+		return true
+	}
+	segs, ok := c23Segs(a, b)
+	if !ok {
+		return false
+	}
+	impl := func(es []Ev) (string, []byte) {
+		text, panicked := c23Encode(f, es)
+		if panicked {
+			return "None", text
+		}
+		return cSome(cBytes(text)), text
+	}
+	ia, ta := impl(a)
+	ib, tb := impl(b)
+	r.cf.Add(cApp("CteEquivCase", c23CoqCfg(f, a), segs, ia, ib, cBool(valid)),
+		fmt.Sprintf("%s valid=%v fmts=%s text1=%q text2=%q :: %s  <=>  %s", what, valid, f, ta, tb, evsString(a), evsString(b)))
+	r.c.Dist("case/" + what)
+	return true
+}
+
 // check runs both halves of the property on one rules-valid stream and its re-deliveries.
 func (r *c23Run) check(f c23Formats, es []Ev, variants int, what string) {
 	c := r.c
@@ -626,7 +737,7 @@ func (r *c23Run) check(f c23Formats, es []Ev, variants int, what string) {
 		}
 	}
 	c.Count(what+"|"+f.String()+"|"+evsString(es), ngroups > 0)
-	if len(c.Rep.Samples) < 4 && ngroups > 0 && len(es) < 40 {
+	if what == "generated" && len(c.Rep.Samples) < 5 && ngroups > 0 && len(es) < 40 {
 		c.Sample(map[string]string{"events": evsString(es)})
 	}
 	canon := c23Deliver(nil, items, "whole", c23ChunkOpts{})
@@ -639,6 +750,7 @@ func (r *c23Run) check(f c23Formats, es []Ev, variants int, what string) {
 		}
 		all = append(all, c23Deliver(c.Rng, items, mode, o))
 	}
+	emitted := 0
 	for vi, v := range all {
 		if vi > 0 {
 			if !c23Valid(v) {
@@ -657,8 +769,11 @@ func (r *c23Run) check(f c23Formats, es []Ev, variants int, what string) {
 			}
 			c.Fail(Replay{Kind: "chunking", Key: key, Input: map[string]string{"events": evsString(minimal), "formats": f.String()}, Expect: mw, Got: mg})
 		}
-		if vi < coq {
-			r.addCase(f, v, true, map[bool]string{true: "valid-original", false: "valid-redelivered"}[vi == 0])
+		if vi != 1 && emitted < coq {
+			emitted++
+			if !r.addEquivCase(f, canon, v, true, "equiv-whole-vs-redelivered") {
+				r.addCase(f, v, true, "valid-with-hex-empty-data")
+			}
 		}
 	}
 	// decode and re-encode (the canonical text)
@@ -817,8 +932,8 @@ func (r *c23Run) boundary(f c23Formats) {
 func (r *c23Run) malformed(f c23Formats, g *EvGen) {
 	u16 := events.ArrayTypeUint16
 	streams := [][]Ev{
-		{{K: "pi", N: 1}},                                   // value before begin-document
-		{{K: "bd"}, {K: "v", N: 0}, {K: "e"}},               // end at top level
+		{{K: "pi", N: 1}},                                       // value before begin-document
+		{{K: "bd"}, {K: "v", N: 0}, {K: "e"}},                   // end at top level
 		{{K: "bd"}, {K: "v", N: 0}, {K: "ad", Data: []byte{1}}}, // data without an array
 		{{K: "bd"}, {K: "v", N: 0}, {K: "ac", N: 0, B: false}},
 		{{K: "bd"}, {K: "v", N: 0}, {K: "ac", N: 2, B: true}},
@@ -865,7 +980,7 @@ func runC23(c *Ctx) {
 		"non-trivial = the stream contains at least one array; distinct = distinct (delivery, formats, event text); malformed streams (hand-written + mutants) " +
 		"are compared with the model only"
 	r := &c23Run{c: c, cf: c.Cases("cteenc", "CE.Model.CteEnc", "cteenc_case", "cteenc_case_ok"), maxCases: c.Pick(1900, 20000)}
-	r.cf.perFile = 500
+	r.cf.perFile = 200
 	def := c23DefaultFormats()
 
 	r.boundary(def)
@@ -894,6 +1009,13 @@ func runC23(c *Ctx) {
 	for k, v := range g.Kinds {
 		c.Rep.Distribution["gen-kind/"+k] += v
 	}
+	c.Rep.Extra["coq_case_kinds"] = "CteEncCase: model text = implementation text (and no dirty Column read when rules-valid); " +
+		"CteEquivCase: whole-array delivery vs a re-delivery, described segment by segment; Coq checks seg_okb (the pair satisfies the " +
+		"hypothesis chunk_equiv true of theorem C23_cte_text_chunk_invariant_partial, by C23_generated_pairs_are_equivalent), both texts, col_clean of both"
+	c.Rep.Extra["excluded_from_partial_theorem"] = []string{"C23/chunking/hex-array-empty-data-event (empty data event inside a media / custom-binary array)",
+		"decode-and-re-encode half: no Coq model of the CTE reader; evaluated on the implementation only (keys C23/reencode/...)"}
+	c.Rep.Extra["model_scope"] = "times are the text of compact_time.Time.String() carried by the event (WriteTime compared against it on every case); " +
+		"float array elements in the hexadecimal (default) format only; everything else concrete"
 }
 
 func replayC23(r *Replay) (bool, string) {
